@@ -254,7 +254,7 @@ def run(ck):
                'residual type, quadrature type, end-point mode); non-trivial = every step reached restol (the property\'s premise)')
     ck.check_props(required=['C01_fixed_point_is_collocation', 'C01_collocation_is_fixed_point', 'C01_imex_fixed_point_is_collocation', 'C01_imex_collocation_is_fixed_point', 'C01_explicit_fixed_point_is_collocation', 'C01_explicit_collocation_is_fixed_point',
                              'C01_multi_implicit_fixed_point_is_collocation', 'C01_residual_zero_iff_collocation',
-                             'C01_block_fixed_point_any_schedule', 'C01_controller_iteration_fixed_point', 'C01_controller_schedule_in_bounds'])
+                             'C01_block_fixed_point_any_schedule', 'C01_controller_iteration_fixed_point', 'C01_controller_run_fixed_point', 'C01_controller_schedule_in_bounds'])
     exact_part(ck, ck.rng, thorough)
     block_part(ck, ck.rng, thorough)
     float_part(ck, ck.rng, thorough)
